@@ -149,6 +149,12 @@ def scenarios():
     add("nowait_cid", [client([("ping",), ("change_cid",), ("ping",)] + ECHO, wait=False)])
     # the application switches connection ID on its own schedule (10 ms after connecting)
     add("cid_timed", [client([("nap", (0.010, 0.0005, 0.002, 0.0)), ("change_cid",), ("ping",)] + ECHO)])
+    # the application abandons a ping (asyncio.wait_for) before / around / after the round trip,
+    # then carries on: the late acknowledgement must not disturb the adapter
+    add("ping_abandoned", [client([("ping_timeout", (0.0005, 0.0015, 0.0035, 0.02, 5.0)), ("ping",)] + ECHO)],
+        server_close_end=True)
+    add("ping_abandoned_then_idle", [client([("ping_timeout", (0.0005, 0.0035, 5.0)), ("wait_closed",)])],
+        cidle=1.5, complete=False)
     add("keyupd", [client([("ping",), ("key_update",), ("ping",)] + ECHO)])
     # connect(wait_connected=False): nothing is transmitted by connect(); the application
     # writes immediately; wait_connected() is awaited from a second task
@@ -465,6 +471,24 @@ class World:
             await asyncio.gather(self.read_all(p, ra, sa), self.read_all(p, rb, sb))
         elif k == "ping":
             await self.aw(c.name, "ping", p.ping(), p)
+        elif k == "ping_timeout":
+            # the application gives up on a ping on its own schedule (how long it waits is a choice
+            # point); giving up is the application's decision - the adapter must cope with the
+            # acknowledgement (or the termination) that arrives afterwards
+            i = self.net.app_choice("%s ping timeout" % c.name, op[1])
+            e = [c.name, "ping", "pending", "before_termination" if p.v_terminated is None else "after_termination"]
+            self.ledger.append(e)
+            try:
+                await asyncio.wait_for(p.ping(), op[1][i])
+                e[2] = "ok"
+                self.note("%s ping -> ok (within %g s)" % (c.name, op[1][i]))
+            except asyncio.TimeoutError:
+                e[2] = "ok"   # abandoned by the application: not the adapter's verdict
+                self.note("%s gave up on ping after %g s" % (c.name, op[1][i]))
+                self.abandoned_pings = getattr(self, "abandoned_pings", 0) + 1
+            except ConnectionError:
+                e[2] = "ConnectionError"
+                raise
         elif k == "ping2":
             res = await asyncio.gather(self.aw(c.name, "ping", p.ping(), p),
                                        self.aw(c.name, "ping", p.ping(), p),
@@ -711,7 +735,14 @@ class World:
                     )
         # (4) exception handler, read after gc.collect()
         log = self.loop.finish()
+        forgiven = getattr(self, "abandoned_pings", 0)
         for recd in log:
+            if forgiven and recd["kind"] == "never_retrieved" and recd["exc"] == "ConnectionError":
+                # the application abandoned that ping itself (wait_for timed out): the waiter did finish,
+                # with a connection error, and nobody is left to retrieve it - asyncio's reminder about an
+                # unretrieved exception is not a verdict on the adapter
+                forgiven -= 1
+                continue
             self.violate(
                 "loop.exception_handler",
                 "loop exception handler called: %s %s in %s (via %s): %s"
